@@ -596,7 +596,91 @@ func fieldName(t types.Type, i int) string {
 	if !ok || i >= st.NumFields() {
 		return "?"
 	}
+	if n, isNamed := t.(*types.Named); isNamed {
+		if role := canonicalField(n.Obj().Name(), st, i); role != "" {
+			return role
+		}
+	}
 	return st.Field(i).Name()
+}
+
+// canonicalField: the rules speak of a handful of fields of the library's own types by the
+// name they have today (which, raw, doc, ary; keys, obj, opts, self; nodes; the scanner's endTop,
+// parseState, step, err). A rename must not matter, so such a field is recognised by its type
+// where that type occurs exactly once in the struct; the name used in the rules is handed back.
+func canonicalField(typeName string, st *types.Struct, i int) string {
+	kindOf := func(t types.Type) string {
+		switch u := t.Underlying().(type) {
+		case *types.Basic:
+			switch {
+			case u.Info()&types.IsBoolean != 0:
+				return "bool"
+			case u.Info()&types.IsInteger != 0:
+				if u.Kind() == types.Int64 {
+					return "int64"
+				}
+				return "int"
+			}
+		case *types.Slice:
+			if isStringType(u.Elem()) {
+				return "[]string"
+			}
+			if isPtrToNamed(u.Elem(), "lazyNode") {
+				return "[]*lazyNode"
+			}
+			if b, ok := u.Elem().Underlying().(*types.Basic); ok && b.Kind() == types.Int {
+				return "[]int"
+			}
+		case *types.Map:
+			return "map"
+		case *types.Signature:
+			return "func"
+		case *types.Interface:
+			if isErrorType(t) {
+				return "error"
+			}
+		case *types.Pointer:
+			if n := derefNamed(t); n != nil {
+				return "*" + n.Obj().Name()
+			}
+		case *types.Struct:
+			if n, ok := t.(*types.Named); ok {
+				return n.Obj().Name()
+			}
+		}
+		if n, ok := t.(*types.Named); ok {
+			return n.Obj().Name()
+		}
+		return ""
+	}
+	var table map[string]string
+	switch typeName {
+	case "lazyNode":
+		table = map[string]string{"int": "which", "*RawMessage": "raw", "*partialDoc": "doc", "partialDoc": "doc", "*partialArray": "ary", "partialArray": "ary"}
+	case "partialDoc":
+		table = map[string]string{"[]string": "keys", "map": "obj", "*ApplyOptions": "opts", "*lazyNode": "self"}
+	case "partialArray":
+		table = map[string]string{"[]*lazyNode": "nodes", "*lazyNode": "self"}
+	case "scanner":
+		table = map[string]string{"bool": "endTop", "[]int": "parseState", "func": "step", "error": "err"}
+	default:
+		return ""
+	}
+	k := kindOf(st.Field(i).Type())
+	role, ok := table[k]
+	if !ok {
+		return ""
+	}
+	n := 0
+	for j := 0; j < st.NumFields(); j++ {
+		if kindOf(st.Field(j).Type()) == k {
+			n++
+		}
+	}
+	if n != 1 {
+		return ""
+	}
+	return role
 }
 
 func allInstrs(fn *ssa.Function, f func(ssa.Instruction)) {
